@@ -3,7 +3,8 @@
 # re-runs the quick checks against an already kept seeded change: the patch is applied (3-way if needed) to a scratch
 # worktree of /repo's HEAD, the checks run against it through VERIF_REPO (so /repo itself stays untouched), and the
 # result lines replace `checks_run_against_it` of seeded/<name>/meta.json (only for the properties run now).
-exec 9>/tmp/seed.lock; flock 9   # one seeded-change run at a time (they share .work/harness-alt)
+TAG=${SEED_TAG:-}; exec 9>/tmp/seed$TAG.lock; flock 9   # one seeded-change run at a time per tag (a tag has its own .work/harness-alt<tag>)
+[ -n "$TAG" ] && export VERIF_ALT_TAG=-$TAG
 name=$1; shift; props="$@"
 cd /verif
 mut=/tmp/sr-repo-$$
